@@ -74,6 +74,9 @@ mod epoch_nanoseconds;
 #[cfg(feature = "tzdb")]
 pub mod tzdb;
 
+#[cfg(temporal_verif)]
+pub mod verif;
+
 #[doc(hidden)]
 pub(crate) mod rounding;
 #[doc(hidden)]
